@@ -330,15 +330,18 @@ class Program:
 
     # ---------------------------------------------------------------- loading
     def _load(self) -> None:
+        from sa.normal import named_tuple_classes, normalise
+
+        parsed: List[Tuple[str, str, ast.Module]] = []
         for rel in self.source.python_files():
             text = self.source.read(rel)
             try:
-                tree = ast.parse(text, filename=rel)
+                parsed.append((rel, text, ast.parse(text, filename=rel)))
             except SyntaxError as exc:
                 raise AnalysisError(f"cannot parse {rel}: {exc}") from exc
-            from sa.normal import normalise
-
-            tree = normalise(tree)
+        records = named_tuple_classes([tree for _rel, _text, tree in parsed])
+        for rel, text, tree in parsed:
+            tree = normalise(tree, records)
             name = rel[:-3].replace("/", ".")
             if name.endswith(".__init__"):
                 name = name[: -len(".__init__")]
